@@ -150,7 +150,7 @@ def _build(node, owned=None):
         return ops.Sum(*pair) if via == "ctor" else pair[0] + pair[1]
     if k == "Gram":
         A = _build(node["arg"], owned)
-        A2 = A if node.get("same", True) else _build(node["arg"], owned)  # merely equal, not identical
+        A2 = A if node.get("same", True) else _build(node.get("other", node["arg"]), owned)  # merely equal (or other data), not identical
         f = node["form"]
         pair = {"TA": lambda: (A.T, A2), "HA": lambda: (A.H, A2), "AT": lambda: (A, A2.T)}.get(f, lambda: (A, A2.H))()
         # optional further factors before/after the pair (a product that merely *contains* a Gram pair)
